@@ -93,7 +93,45 @@ func expVarsMap(v any) map[string]any {
 	return map[string]any{}
 }
 
+// normVars drops, from the per-iteration maps of named loops, the entries
+// that are empty: the engine records an empty map for every iteration it
+// merely attempted (documents silent; DESIGN.md section 5), so only the
+// iterations that bound something are compared.
+func normVars(v any) any {
+	m, ok := v.(map[string]any)
+	if !ok {
+		if arr, isArr := v.([]any); isArr && len(arr) == 0 {
+			return v
+		}
+		return v
+	}
+	allDigits := len(m) > 0
+	for k := range m {
+		for _, c := range k {
+			if c < '0' || c > '9' {
+				allDigits = false
+			}
+		}
+	}
+	out := map[string]any{}
+	for k, e := range m {
+		ne := normVars(e)
+		if allDigits {
+			if em, ok := ne.(map[string]any); ok && len(em) == 0 {
+				continue
+			}
+			if ea, ok := ne.([]any); ok && len(ea) == 0 {
+				continue
+			}
+		}
+		out[k] = ne
+	}
+	return out
+}
+
 func varsEqual(exp map[string]any, got map[string]any) bool {
+	exp, _ = normVars(exp).(map[string]any)
+	got, _ = normVars(got).(map[string]any)
 	if len(exp) != len(got) {
 		return false
 	}
